@@ -135,7 +135,7 @@ def build_recording(tier):
     V0, A0 = ["--validate=false"], ["--alt=false"]
     plan = [("Pipeline_c04.cfg", None, 500 if thorough else 40, V0), ("Pipeline_c01sim.cfg", 1200 if thorough else 40, None, V0),
             ("Pipeline_sim.cfg", 2500 if thorough else 50, None, V0), ("Pipeline_c06sim.cfg", 1500 if thorough else 40, None, V0),
-            ("Pipeline_c10.cfg", None, 500 if thorough else 60, A0)]
+            ("Pipeline_c07sim.cfg", 1500 if thorough else 40, None, V0), ("Pipeline_c10.cfg", None, 500 if thorough else 60, A0)]
     if thorough:
         plan.append(("Pipeline_c10sim.cfg", 1500, None, A0))
     import concurrent.futures
@@ -302,6 +302,8 @@ RULES = {
     "C06": "one evaluation per documented operation and OpenAPI version; non-trivial = operation with an optional parameter, a body or error responses",
     "C10": "one evaluation per route with a well-linkedness verdict from the specification (every single perturbation of two base routes, sampled double perturbations, plus the well-formed routes of the other input sets) and per run that failed on diagnostics; non-trivial = perturbed route",
     "C18": "one evaluation per diagnostic produced by GenerateGraph+Validate on the perturbed projects, plus one per error text; non-trivial = all of them (each is a located diagnostic)",
+    "C07": "one evaluation per accepted run of a project with declared types (type zoo: renamed/omitempty/unexported/json '-' fields, pointers, slices, maps, time, bytes, enums of string/int, aliases, embedding, self reference, second package, usage-site validators); non-trivial = type graph with embedding, recursion or a cross-package reference",
+    "C11": "one evaluation per project for which both dialects were generated; the two documents are compared after the dialect map (empty description, exclusive bounds, explicit false flags, type arrays, empty required/security lists); non-trivial = project with validator rules or enums",
     "C13": "one evaluation per accepted multi-run case (2+ fresh repeats and 8 forced schedules of file / node iteration order); non-trivial = >= 2 controllers",
     "C14": "one evaluation per CLI run; non-trivial = run that reached validation (>= 5 hook events)",
 }
